@@ -5,6 +5,7 @@ import GeonumModel.Lemmas.AngleStep
 import GeonumModel.Spec.RealWitness
 import GeonumModel.Lemmas.Exact
 import GeonumModel.Lemmas.FloatMetric
+import GeonumModel.Spec.RoundWitness
 
 set_option linter.unusedSectionVars false
 set_option linter.unusedVariables false
@@ -181,5 +182,17 @@ end E
 
 example {F : Type} [FloatSpec F] : (Geonum.new (one : F) zero one).angle.Inv :=
   Angle.Equiv.inv (Angle.Equiv.symm new_zero_one) (inv_zero 0)
+
+
+/-! ### R — on the arithmetic that really rounds (`R64`: round-to-nearest on the binary64 grid, correctly rounded libm) -/
+section R
+
+/-- (R) totals of a product add, for all binary64 numbers with canonical angles -/
+theorem mul_total_rounded {a b : Geonum R64} (ha : a.angle.Inv) (hb : b.angle.Inv) :
+    (a.mul b).mag = fmul a.mag b.mag ∧
+    ∃ δ : ℝ, |δ| < (e10 : R64).v + 1 / 10 ^ 15 ∧ Angle.Tq (a.mul b).angle = Angle.Tq a.angle + Angle.Tq b.angle + δ :=
+  mul_total_float (F := R64) ha hb
+
+end R
 
 end GeonumModel.C05
